@@ -1868,7 +1868,27 @@ def gen_tracked_circuit(rng, width, ncmds, opts=None):
             outs.insert(rng.randint(0, len(outs)), w.w)
         g.emit(["set_indexed_outputs", t, outs])
     g.emit(["to_json", t])
+    _node_handles_as_wires(rng, prog)
     return prog
+
+
+def _node_handles_as_wires(rng, prog):
+    """A wire given as `n.out(0)` may equally be given as the node handle `n` itself (`ToNode` is a `Wire`: port 0);
+    about a quarter of such arguments of `add` / `add_op` / `extend` are handed over that way, in place (seeded change
+    C15-14: `DataflowOp.__call__` normalising handle arguments into a one-shot iterator, so that the rebinding pass of
+    `TrackedDfg.add` sees nothing)."""
+    def conv(ws):
+        for j, w in enumerate(ws):
+            if isinstance(w, list) and len(w) == 3 and w[0] == "out" and w[2] == 0 and isinstance(w[1], str) \
+                    and rng.random() < 0.25:
+                ws[j] = ["node", w[1]]
+
+    for c in prog:
+        if c[0] in ("add", "add_op"):
+            conv(c[4])
+        elif c[0] == "extend":
+            for com in c[3]:
+                conv(com[1])
 
 
 def elaborate_tracked(prog):
